@@ -199,6 +199,40 @@ fn exec(ctx: &mut Ctx, ev: &Ev, rng: &mut Rng) {
             }
             ctx.check("soes-forms-agree", ors.iter().all(|o| *o == ors[0]), ev, "or-forms", || "the four | forms differ".into());
         }
+        "soes-ctor" => {
+            // values built by the named constructors; their meaning is read back through cubes()
+            let v = ev.i(0);
+            ctx.event(&format!("soes-ctor|n={}", n), ev, true);
+            let r = guard(|| {
+                let list = vec![Soes::zero(n), Soes::one(n), Soes::nth_var(n, v), Soes::nth_var_inv(n, v)];
+                let mut out = Vec::new();
+                for s in &list {
+                    let terms: Vec<EcubeM> = s.cubes().iter().map(EcubeM::of).collect();
+                    let vals: Vec<bool> = (0..1usize << n).map(|m| s.value(m)).collect();
+                    let l = Lut::from(s);
+                    let o = s | &list[2];
+                    let ovals: Vec<bool> = (0..1usize << n).map(|m| o.value(m)).collect();
+                    out.push((terms, vals, l, s.is_zero(), s.is_one(), s.num_cubes(), s.num_lits(), ovals));
+                }
+                out
+            });
+            match r {
+                Outcome::Returned(out) => {
+                    let x: Vec<bool> = out[2].1.clone();
+                    for (k, (terms, vals, l, isz, iso, nc, nl, ovals)) in out.iter().enumerate() {
+                        let want = or_esets(n, terms);
+                        let key = ["zero", "one", "nth_var", "nth_var_inv"][k];
+                        ctx.check("soes-value-or", *vals == want && *nc == terms.len() && *nl == terms.iter().map(|t| t.vars.count_ones() as usize).sum::<usize>(), ev, key, || format!("Soes::{} does not evaluate to the OR of its terms", key));
+                        ctx.check("soes-to-lut", Model::from_blocks(n, l.blocks()).bits == want, ev, key, || format!("Lut::from(&Soes::{}) is not the tabulated OR", key));
+                        ctx.check("soes-is-zero-sound", !*isz || want.iter().all(|b| !*b), ev, key, || "is_zero on a non-zero Soes".into());
+                        ctx.check("soes-is-one-sound", !*iso || want.iter().all(|b| *b), ev, key, || "is_one on a non-one Soes".into());
+                        let wo: Vec<bool> = want.iter().zip(x.iter()).map(|(a, b)| *a || *b).collect();
+                        ctx.check("soes-or-semantic", *ovals == wo, ev, key, || format!("Soes::{} | nth_var does not denote the OR", key));
+                    }
+                }
+                Outcome::Panicked(msg) => ctx.violate("no-panic", ev, "soes-ctor", format!("Soes constructor panicked: {}", msg)),
+            }
+        }
         other => panic!("harness: unknown op {}", other),
     }
 }
@@ -258,6 +292,9 @@ fn main() {
                     }
                 }
                 exec(ctx, &Ev::new("eall", "Ecube", n), &mut rng);
+                for v in 0..n {
+                    exec(ctx, &Ev::new("soes-ctor", "Soes", n).int(v), &mut rng);
+                }
                 if n <= if thorough { 4 } else { 3 } {
                     let count: u64 = 1u64 << (1u64 << n);
                     for x in 0..count {
